@@ -2,9 +2,9 @@
    Composition of C01/C02/C05 (pipeline and aggregation loop, every schedule) with C07 (count-style
    aggregators are invariant under permutation of the sample history), the CSV writer / strict
    RFC 4180 reader, and the exit status. *)
-From Coq Require Import List NArith ZArith Arith Permutation Bool.
-From RareV Require Import Base.Hex Model.Batch Model.Pipeline Model.AggLoop Model.Agg Model.CsvFile Model.Exit
-  Proofs.PipelineProof Proofs.C03Proof Proofs.CsvFileProof Gen.GenC06.
+From Coq Require Import List NArith ZArith Arith Permutation Bool String.
+From RareV Require Import Base.Hex Base.Num Model.Batch Model.Pipeline Model.AggLoop Model.Agg Model.CsvFile Model.Exit
+  Proofs.PipelineProof Proofs.ReduceOrder Proofs.C03Proof Proofs.CsvFileProof Gen.GenC06.
 Import ListNotations.
 
 (* whatever the schedule, worker count, reader concurrency, channel capacities and batching, the keys
@@ -32,6 +32,29 @@ Theorem C03_two_runs_agree : forall classify c srcs nw1 nw2 c2 s1 s2, cfg_ok c -
   reach bytes classify c2 (init bytes srcs nw2) s2 -> (forall s', ~ step bytes classify c2 s2 s') ->
   Permutation (consumed bytes s1) (consumed bytes s2).
 Proof. exact schedule_independent. Qed.
+
+(* reduce with sum / count accumulators ({sumi {.} x}: int64 wrap-around, a non-integer operand gives the
+   sticky marker): the row step commutes, so the group table depends only on the multiset of keys -
+   for every configuration and every schedule it is the table of the sequential reference keys, also
+   through RunAggregationLoop; in general (any accumulating group whose row step commutes) *)
+Theorem C03_reduce_schedule_independent : forall classify c bad srcs nw s, atoi bad = None -> cfg_ok c -> nw >= 1 ->
+  reach bytes classify c (init bytes srcs nw) s -> (forall s', ~ step bytes classify c s s') ->
+  a_run expr (eval_expr bad) reduce_def (consumed bytes s) =
+  a_run expr (eval_expr bad) reduce_def (seq_keys bytes classify (input_of srcs)).
+Proof. exact pipeline_reduce. Qed.
+Print Assumptions C03_reduce_schedule_independent.
+Theorem C03_reduce_loop : forall classify c bad srcs nw x, atoi bad = None -> nw >= 1 ->
+  creach bytes classify c (init bytes srcs nw, loop0 bytes) x -> ag bytes (snd x) = ADone ->
+  a_run expr (eval_expr bad) reduce_def (sampled bytes (snd x)) =
+  a_run expr (eval_expr bad) reduce_def (seq_keys bytes classify (input_of srcs)).
+Proof. exact loop_reduce. Qed.
+Theorem C03_accumulator_order_insensitive : forall (E : Type) eval (d : adef E),
+  step_commutes E eval d -> forall h1 h2, Permutation h1 h2 -> a_run E eval d h1 = a_run E eval d h2.
+Proof. exact a_run_perm. Qed.
+Print Assumptions C03_accumulator_order_insensitive.
+(* the marker the correspondence uses is not an integer *)
+Example C03_bad_type_not_int : atoi (of_str "<BAD-TYPE>") = None.
+Proof. vm_compute. reflexivity. Qed.
 
 (* ANY accumulator (analyze, reduce: order-sensitive ones included) with one reader at a time and one worker *)
 Theorem C03_any_accumulator_1x1 : forall (A : Type) (f : A -> bytes -> A) (a0 : A) classify c srcs s,
